@@ -463,6 +463,39 @@ func genC04(cfg runCfg, e *emitter, rng *rand.Rand) {
 			e.distinct(fmt.Sprintf("tot:%s:%d:%d", us(ts), len(hh), len(pf)))
 			e.count(fmt.Sprintf("targets_%d", len(ts)))
 		}
+		// the additions are caller-supplied hashes too: honest deletion proofs together with odd additions
+		// (all-zero hash, repeated hash, hash of a live leaf or of an inner node); accepted or not, a
+		// rejection must leave the stump as it was
+		for j := 0; j < tierN(cfg, 12, 40) && len(live) > 0; j++ {
+			var req []u.Hash
+			for _, h := range live {
+				if rng.Intn(3) == 0 && len(req) < 4 {
+					req = append(req, h)
+				}
+			}
+			p, _ := rf.prove(req)
+			var adds []u.Hash
+			for x := 0; x < 1+rng.Intn(3); x++ {
+				switch rng.Intn(5) {
+				case 0:
+					adds = append(adds, empty)
+				case 1:
+					adds = append(adds, live[rng.Intn(len(live))])
+				case 2:
+					adds = append(adds, a.hashes[rng.Intn(len(a.hashes))])
+				case 3:
+					if len(adds) > 0 {
+						adds = append(adds, adds[0])
+					} else {
+						adds = append(adds, newLeaf())
+					}
+				default:
+					adds = append(adds, newLeaf())
+				}
+			}
+			updateStump(e, is.stump, "oddadds", req, adds, p.Targets, p.Proof)
+			e.count("odd_additions")
+		}
 	}
 	// well-formed stumps that no history of this run reaches: huge leaf counts (up to 2^64-1) with
 	// popcount(NumLeaves) arbitrary roots; every entry point must return (no oracle state: totality only)
